@@ -243,6 +243,7 @@ def run(ctx):
     counting.rules(ctx)
     counting.cnt1(ctx, lib)
     counting.cnt2(ctx, lib)
+    counting.chr1(ctx, lib)
     try:
         from . import plumbing
     except ImportError:
